@@ -13,7 +13,7 @@ pub fn pool(tier: Tier) -> Vec<Value> {
         json!(1e2), json!(100), json!(""), json!("a"), json!("1"), big53, big63, umax, json!(-0.0), json!(0.0), json!(2.0), json!(1.5),
         json!(i64::MIN), json!(-1.5), json!("b"), json!("é"),
         // not well separated: only the ordering operators are asserted on these pairs
-        json!(0.3), json!(0.30000000000000004), json!(9007199254740993u64), json!(1.0000000000000002), json!(9223372036854775807i64), json!(9007199254740992.0), json!(9.223372036854776e18), json!(1.8446744073709552e19), json!(-9.223372036854775808e18), json!(1e39), json!(1e40), json!(-1e39), json!(1.7e38), json!(1e308),
+        json!(0.3), json!(0.30000000000000004), json!(9007199254740993u64), json!(1.0000000000000002), json!(9223372036854775807i64), json!(9007199254740992.0), json!(9.223372036854776e18), json!(1.8446744073709552e19), json!(-9.223372036854775808e18), json!(1e39), json!(1e40), json!(-1e39), json!(1.7e38), json!(1e308), json!(1.5e308), json!(f64::MAX), json!(-1.5e308), json!(-f64::MAX), json!(9e307), json!(5e-324), json!(1e-323), json!(2.2250738585072014e-308), json!(2.225073858507201e-308),
     ];
     let t = vec![json!(null), json!(true), json!(0), json!(1), json!(1.0), json!("a"), json!("1")];
     v.push(json!([]));
